@@ -144,6 +144,23 @@ func SubscribeW(h http.Handler, target string, hdr http.Header, w *Writer) *Stre
 	return s
 }
 
+// SubscribeReq starts handler(w, r) in its own goroutine; r gets a cancellable context.
+func SubscribeReq(h http.Handler, r *http.Request, w *Writer) *Stream {
+	ctx, cancel := context.WithCancel(context.Background())
+	r = r.WithContext(ctx)
+	s := &Stream{W: w, Cancel: cancel, Done: make(chan struct{})}
+	go func() {
+		defer close(s.Done)
+		defer func() {
+			if p := recover(); p != nil {
+				s.Panic = p
+			}
+		}()
+		h.ServeHTTP(w, r)
+	}()
+	return s
+}
+
 // Finished reports whether the handler returned within d.
 func (s *Stream) Finished(d time.Duration) bool {
 	select {
